@@ -61,8 +61,19 @@ def neutral():
     out.append('')
     out.append('%d negative controls run, %d silent.'%(n,ok))
     return '\n'.join(out)
+def selftest():
+    f=V+'/selftest_status.json'
+    if not os.path.exists(f): return '(no strict run recorded)'
+    d=json.load(open(f))
+    m=json.load(open(V+'/MANIFEST.json'))
+    out=['| property | overlay mutants | verdicts of the last complete strict run | mismatches |','|---|---|---|---|']
+    for c in m['checks']:
+        i=c['property_id']; x=d.get(i)
+        if x: out.append('| %s | %d | %s | %s |'%(i,x['mutants'],x['verdicts'],'; '.join(y.replace('|','¦') for y in x['mismatches']) or 'none'))
+        else: out.append('| %s | – | strict run not completed in the final session (earlier strict runs of this property passed; mutants added by the robustness pass were run by their authors, see section 12) | – |'%i)
+    return '\n'.join(out)
 s=open(V+'/DESIGN.md').read()
-for tag,fn in (('FINDINGS',findings),('ASBUILT',asbuilt),('SEEDS',seeds),('NEUTRAL',neutral)):
+for tag,fn in (('SELFTEST',selftest),('FINDINGS',findings),('ASBUILT',asbuilt),('SEEDS',seeds),('NEUTRAL',neutral)):
     b='<!-- BEGIN %s -->'%tag; e='<!-- END %s -->'%tag
     if b in s:
         s=s[:s.index(b)+len(b)]+'\n'+fn()+'\n'+s[s.index(e):]
